@@ -94,6 +94,10 @@ def assigned_starts():
                              'assign v {%s / 2} %s v' % (reg, reg)]
                     for f in forms:
                         out.append((m1, '%s units %s %s' % (base, m1, f)))
+                # the switch happens inside a routine (and inside a loop inside a routine) that the script calls
+                out.append((m1, '%s define sw begin units %s end sw' % (base, m1)))
+                out.append((m1, '%s define sw with u begin if {u > 0} units %s end sw 1' % (base, m1)))
+                out.append((m1, '%s define sw begin repeat 2 begin units %s end end define sx begin sw end sx' % (base, m1)))
                 out.append((m1, '%s units %s get "a"' % (base, m1)))
                 out.append((m1, '%s units %s define r with x begin %s x end r 30'
                             % (base, m1, {'logical': 'brightness', 'raw': 'brightness', 'rgb': 'green'}[m1])))
